@@ -431,3 +431,207 @@ Proof.
   rewrite <- !lookup_table_is_formula by apply wbyte_range.
   ring.
 Qed.
+
+(* ================================================================ H. layers, round, permutation, trace *)
+Lemma canon_word_ok a : canon a -> word_ok a.
+Proof. unfold canon, word_ok. rewrite P_lit. change (2 ^ 64) with 18446744073709551616. lia. Qed.
+
+Lemma Forall_firstn_skipn {A} (Q : A -> Prop) n l : Forall Q l -> Forall Q (firstn n l) /\ Forall Q (skipn n l).
+Proof. intros H. rewrite <- (firstn_skipn n l) in H. apply Forall_app in H. exact H. Qed.
+
+Lemma map_ext_Forall {A B} (f g : A -> B) (Q : A -> Prop) l :
+  (forall x, Q x -> f x = g x) -> Forall Q l -> map f l = map g l.
+Proof. intros H HF. induction HF as [|x l Hx _ IH]; [reflexivity|]. cbn [map]. rewrite H, IH by exact Hx. reflexivity. Qed.
+
+Lemma Forall_map_impl {A B} (f : A -> B) (Q : A -> Prop) (R : B -> Prop) l :
+  (forall x, Q x -> R (f x)) -> Forall Q l -> Forall R (map f l).
+Proof. intros H HF. apply Forall_map. eapply Forall_impl; [|exact HF]. exact H. Qed.
+
+Theorem sbox_layer_spec st : Forall canon st ->
+  Forall canon (sbox_layer st) /\ map val (sbox_layer st) = spec_sbox (map val st) /\
+  length (sbox_layer st) = length st.
+Proof.
+  intros Hst. unfold sbox_layer, spec_sbox. change nlookup with 4%nat.
+  destruct (Forall_firstn_skipn canon 4 st Hst) as [H1 H2].
+  split; [|split].
+  - apply Forall_app. split.
+    + apply (Forall_map_impl _ canon); [|exact H1]. intros w Hw. apply split_and_lookup_spec. exact Hw.
+    + apply (Forall_map_impl _ canon); [|exact H2]. intros w Hw. apply pow7_spec. exact Hw.
+  - rewrite map_app, !map_map, firstn_map, skipn_map, !map_map. f_equal.
+    + apply (map_ext_Forall _ _ canon); [|exact H1]. intros w Hw. apply split_and_lookup_spec. exact Hw.
+    + apply (map_ext_Forall _ _ canon); [|exact H2]. intros w Hw.
+      destruct (pow7_spec w Hw) as [_ E]. rewrite E. reflexivity.
+  - rewrite app_length, !map_length, <- app_length, firstn_skipn. reflexivity.
+Qed.
+
+Lemma sdot_dot r x : sdot r x = dot r x.
+Proof. revert x. induction r as [|a r IH]; intros x; [reflexivity|]. destruct x; [reflexivity|]. cbn [sdot dot]. rewrite IH. reflexivity. Qed.
+
+Theorem mds_generated_spec st : Forall word_ok st ->
+  Forall word_ok (mds_generated st) /\ map val (mds_generated st) = spec_mds (map val st) /\
+  length (mds_generated st) = 16%nat.
+Proof.
+  intros Hst. rewrite (mds_generated_unfold st Hst). split; [|split].
+  - apply Forall_map. apply Forall_forall. intros r Hr. apply in_seq in Hr.
+    apply (mds_out_spec st r ltac:(lia) Hst).
+  - unfold spec_mds. rewrite map_map. apply map_ext_in. intros r Hr. apply in_seq in Hr.
+    destruct (mds_out_spec st r ltac:(lia) Hst) as [_ [E _]].
+    rewrite (val_congr _ _ E). unfold val at 1. rewrite dot_val. reflexivity.
+  - rewrite map_length, seq_length. reflexivity.
+Qed.
+
+Definition rc_ok (c : Z) : Prop := 0 <= c <= P - 2 ^ 32.
+
+Theorem add_constants_spec ys rcs : Forall word_ok ys -> Forall rc_ok rcs ->
+  Forall canon (add_constants ys rcs) /\
+  map val (add_constants ys rcs) = map (fun ac => (fst ac + snd ac) mod P) (combine (map val ys) (map val rcs)) /\
+  length (add_constants ys rcs) = Nat.min (length ys) (length rcs).
+Proof.
+  intros Hys. revert rcs. unfold add_constants. induction Hys as [|y ys Hy Hys IH]; intros rcs Hrc.
+  - cbn. auto.
+  - destruct Hrc as [|c rcs Hc Hrc]; [cbn; auto|]. cbn [combine map fst snd length Nat.min].
+    destruct (IH rcs Hrc) as [I1 [I2 I3]]. destruct (add_noncanon_val y c Hy Hc) as [A1 A2].
+    split; [|split].
+    + constructor; assumption.
+    + rewrite A2, I2. reflexivity.
+    + rewrite I3. reflexivity.
+Qed.
+
+Lemma round_constants_spec i : (i < 5)%nat ->
+  Forall rc_ok (round_constants i) /\ map val (round_constants i) = spec_rc i /\ length (round_constants i) = 16%nat.
+Proof.
+  intros Hi. split; [|split].
+  - unfold round_constants. apply Forall_firstn_skipn. apply Forall_firstn_skipn. exact rc_margin.
+  - do 5 (destruct i as [|i]; [vm_compute; reflexivity|]). lia.
+  - do 5 (destruct i as [|i]; [vm_compute; reflexivity|]). lia.
+Qed.
+
+(* one round: canonical state in, canonical state out, and the values are those of the specification's round *)
+Theorem round_refines i st : (i < 5)%nat -> Forall canon st ->
+  Forall canon (round i st) /\ map val (round i st) = spec_round i (map val st) /\ length (round i st) = 16%nat.
+Proof.
+  intros Hi Hst. unfold round, spec_round.
+  destruct (sbox_layer_spec st Hst) as [S1 [S2 _]].
+  assert (S1' : Forall word_ok (sbox_layer st)) by (eapply Forall_impl; [|exact S1]; exact canon_word_ok).
+  destruct (mds_generated_spec _ S1') as [M1 [M2 M3]].
+  destruct (round_constants_spec i Hi) as [R1 [R2 R3]].
+  destruct (add_constants_spec _ _ M1 R1) as [A1 [A2 A3]].
+  split; [exact A1|]. split.
+  - rewrite A2, M2, S2, R2. reflexivity.
+  - rewrite A3, M3, R3. reflexivity.
+Qed.
+
+Lemma permutation_unfold st : permutation st = round 4 (round 3 (round 2 (round 1 (round 0 st)))).
+Proof. reflexivity. Qed.
+
+(* the permutation: five rounds *)
+Theorem permutation_refines st : Forall canon st ->
+  Forall canon (permutation st) /\ map val (permutation st) = spec_permutation (map val st) /\
+  length (permutation st) = 16%nat.
+Proof.
+  intros H0. rewrite permutation_unfold. unfold spec_permutation.
+  destruct (round_refines 0 st ltac:(lia) H0) as [C1 [V1 _]].
+  destruct (round_refines 1 _ ltac:(lia) C1) as [C2 [V2 _]].
+  destruct (round_refines 2 _ ltac:(lia) C2) as [C3 [V3 _]].
+  destruct (round_refines 3 _ ltac:(lia) C3) as [C4 [V4 _]].
+  destruct (round_refines 4 _ ltac:(lia) C4) as [C5 [V5 L5]].
+  split; [exact C5|]. split; [|exact L5]. rewrite V5, V4, V3, V2, V1. reflexivity.
+Qed.
+
+Lemma trace_unfold st :
+  trace st = let s1 := round 0 st in let s2 := round 1 s1 in let s3 := round 2 s2 in
+             let s4 := round 3 s3 in let s5 := round 4 s4 in [st; s1; s2; s3; s4; s5].
+Proof. reflexivity. Qed.
+
+(* the trace: initial state and the state after every round; all six states canonical; the sponge ends in the
+   last one, which is the permutation's result *)
+Theorem trace_refines st : Forall canon st ->
+  Forall (Forall canon) (trace st) /\ map (map val) (trace st) = spec_trace (map val st) /\
+  last (trace st) [] = permutation st /\ length (trace st) = 6%nat.
+Proof.
+  intros H0. rewrite trace_unfold, permutation_unfold. unfold spec_trace. cbv zeta.
+  destruct (round_refines 0 st ltac:(lia) H0) as [C1 [V1 _]].
+  destruct (round_refines 1 _ ltac:(lia) C1) as [C2 [V2 _]].
+  destruct (round_refines 2 _ ltac:(lia) C2) as [C3 [V3 _]].
+  destruct (round_refines 3 _ ltac:(lia) C3) as [C4 [V4 _]].
+  destruct (round_refines 4 _ ltac:(lia) C4) as [C5 [V5 L5]].
+  split; [repeat (apply Forall_cons; [assumption|]); apply Forall_nil|]. split; [|split; reflexivity].
+  cbn [map]. rewrite V5, V4, V3, V2, V1. reflexivity.
+Qed.
+
+(* ================================================================ I. fixed-length hashes *)
+Lemma firstn_canon n st : Forall canon st -> Forall canon (firstn n st).
+Proof. intros H. apply (Forall_firstn_skipn canon n st H). Qed.
+
+Lemma fixed_capacity : skipn 10 (tip5_new FixedLength) = repeat bfe_one 6 /\ Forall canon (repeat bfe_one 6) /\
+  map val (repeat bfe_one 6) = [1; 1; 1; 1; 1; 1].
+Proof.
+  split; [reflexivity|]. split; [|vm_compute; reflexivity].
+  apply Forall_forall. intros x Hx. apply repeat_spec in Hx. subst x. vm_compute. split; congruence.
+Qed.
+
+Theorem hash_10_spec input : Forall canon input ->
+  Forall canon (hash_10 input) /\ map val (hash_10 input) = spec_hash_10 (map val input).
+Proof.
+  intros Hin. unfold hash_10, spec_hash_10. destruct fixed_capacity as [E [C V]]. rewrite E.
+  assert (Hst : Forall canon (input ++ repeat bfe_one 6)) by (apply Forall_app; split; assumption).
+  destruct (permutation_refines _ Hst) as [P1 [P2 _]].
+  change ndigest with 5%nat. split; [apply firstn_canon; exact P1|].
+  rewrite <- firstn_map, P2, map_app, V. reflexivity.
+Qed.
+
+Theorem hash_pair_spec l r : Forall canon l -> Forall canon r -> length l = 5%nat -> length r = 5%nat ->
+  Forall canon (hash_pair l r) /\ map val (hash_pair l r) = spec_hash_pair (map val l) (map val r) /\
+  hash_pair l r = hash_10 (l ++ r).
+Proof.
+  intros Hl Hr Ll Lr.
+  assert (E : hash_pair l r = hash_10 (l ++ r)).
+  { unfold hash_pair, hash_10. rewrite <- app_assoc. reflexivity. }
+  rewrite E. unfold spec_hash_pair. rewrite <- map_app.
+  split; [|split; [|reflexivity]]; apply hash_10_spec; apply Forall_app; split; assumption.
+Qed.
+
+Theorem digest_hash_spec d : Forall canon d -> length d = 5%nat ->
+  Forall canon (digest_hash d) /\ map val (digest_hash d) = spec_digest_hash (map val d).
+Proof.
+  intros Hd Ld. unfold digest_hash, spec_digest_hash.
+  assert (Hz : Forall canon (repeat bfe_zero ndigest)) by (apply Forall_forall; intros x Hx; apply repeat_spec in Hx; subst x; vm_compute; split; congruence).
+  destruct (hash_pair_spec d (repeat bfe_zero ndigest) Hd Hz Ld eq_refl) as [H1 [H2 _]].
+  split; [exact H1|]. rewrite H2. reflexivity.
+Qed.
+
+(* ================================================================ J. the statements in terms of the public API *)
+(* a state built with BFieldElement::new from arbitrary u64 values *)
+Lemma state_of_values vs : Forall (fun v => 0 <= v < 2 ^ 64) vs ->
+  Forall canon (map bfe_new vs) /\ map val (map bfe_new vs) = map (fun v => v mod P) vs.
+Proof.
+  intros H. split.
+  - apply (Forall_map_impl _ (fun v => 0 <= v < 2 ^ 64)); [|exact H]. intros v Hv. apply new_spec. exact Hv.
+  - rewrite map_map. apply (map_ext_Forall _ _ (fun v => 0 <= v < 2 ^ 64)); [|exact H].
+    intros v Hv. destruct (new_spec v Hv) as [_ E]. rewrite E. apply val_mont.
+Qed.
+
+(* `.value()` of canonical words *)
+Lemma values_of_state st : Forall canon st -> map bfe_value st = map val st.
+Proof.
+  intros H. apply (map_ext_Forall _ _ canon); [|exact H]. intros a Ha. apply value_spec. apply canon_word_ok. exact Ha.
+Qed.
+
+(* canonical words are determined by their values: model = to_mont (spec) *)
+Lemma words_of_values st vs : Forall canon st -> map val st = vs -> st = map mont vs.
+Proof.
+  intros H <-. rewrite map_map. induction H as [|a st Ha _ IH]; [reflexivity|].
+  cbn [map]. rewrite (mont_val a Ha), <- IH. reflexivity.
+Qed.
+
+Theorem permutation_api vs : Forall (fun v => 0 <= v < 2 ^ 64) vs ->
+  let out := permutation (map bfe_new vs) in
+  Forall canon out /\ map bfe_value out = spec_permutation (map (fun v => v mod P) vs) /\
+  out = map mont (spec_permutation (map (fun v => v mod P) vs)).
+Proof.
+  intros H out. destruct (state_of_values vs H) as [C V].
+  destruct (permutation_refines _ C) as [C' [V' _]]. rewrite V in V'. subst out.
+  split; [exact C'|]. split.
+  - rewrite (values_of_state _ C'). exact V'.
+  - apply words_of_values; assumption.
+Qed.
